@@ -136,4 +136,4 @@ def cases(draw):
 
 
 def subs(tier):
-    return [Sub("family", cases(), run_case, quick=320, thorough=6000, needs=("rel", "h5x"), shrink_budget=40)]
+    return [Sub("family", cases(), run_case, quick=640, thorough=6000, needs=("rel", "h5x"), shrink_budget=40)]
